@@ -144,6 +144,10 @@ pub enum Cut {
     FnPar,
     /// Cutoff::FnBoxed(par-equal)
     BoxPar,
+    /// Cutoff::Fn(par-equal) whose calls are not logged and are no fault points: the only coarse cutoff a
+    /// `map_ref` can carry in the families (the engine consults a map_ref's cutoff from `child_changed`,
+    /// possibly several times per round, so call counts / arguments are not judged there). Added after seed C06-b.
+    QuietPar,
 }
 
 impl Cut {
@@ -153,7 +157,7 @@ impl Cut {
             Cut::Default | Cut::FnEq | Cut::BoxEq => old == new,
             Cut::Never => false,
             Cut::Always => true,
-            Cut::FnPar | Cut::BoxPar => old.num().rem_euclid(2) == new.num().rem_euclid(2),
+            Cut::FnPar | Cut::BoxPar | Cut::QuietPar => old.num().rem_euclid(2) == new.num().rem_euclid(2),
         }
     }
     /// "cutoffs only suppress equal values" (the C01 proviso)
@@ -172,6 +176,7 @@ impl Cut {
             Cut::BoxEq => "box_eq",
             Cut::FnPar => "fn_par",
             Cut::BoxPar => "box_par",
+            Cut::QuietPar => "quiet_par",
         }
     }
     pub fn from_name(s: &str) -> Option<Cut> {
@@ -183,6 +188,7 @@ impl Cut {
             "box_eq" => Cut::BoxEq,
             "fn_par" => Cut::FnPar,
             "box_par" => Cut::BoxPar,
+            "quiet_par" => Cut::QuietPar,
             _ => return None,
         })
     }
